@@ -305,6 +305,9 @@ fn call(entry: &str, input: &[u8], w: &World) {
         }
         let _ = StatusList2021Credential::try_from(c.clone()).map(|mut s| {
           let _ = (s.entry(0), s.entry(usize::MAX), s.purpose(), s.to_string());
+          for idx in [1usize, 7, 8, 9, 15, 16, 17, 127, 128, 129, 131_071, 131_072, 131_073, usize::MAX / 8] {
+            let _ = s.entry(idx);
+          }
           let _ = s.update(|l| l.set_entry(3, true));
           let mut target = c.clone();
           let _ = s.set_credential_status(&mut target, 5, true);
@@ -333,6 +336,10 @@ fn call(entry: &str, input: &[u8], w: &World) {
       if let Ok(mut l) = StatusList2021::try_from_encoded_str(text) {
         let n = l.len();
         let _ = (l.get(0), l.get(n), l.get(n.wrapping_sub(1)), l.get(usize::MAX), l.set(n, true), l.set(0, true), l.set(usize::MAX, false));
+        // indices around every boundary a size check might be written against
+        for idx in [1usize, 7, 8, 9, n + 1, n + 7, n + 8, 131_071, 131_072, 131_073, n.saturating_mul(8), usize::MAX / 8, usize::MAX - 1] {
+          let _ = (l.get(idx), l.set(idx, true), l.set(idx, false));
+        }
         let _ = l.into_encoded_str().len();
       }
     }
@@ -474,6 +481,26 @@ fn seeds(w: &World) -> Vec<(&'static str, Vec<u8>)> {
   add("credential", r#"{"@context":["https://www.w3.org/2018/credentials/v1","https://w3id.org/vc/status-list/2021/v1"],"id":"https://example.com/credentials/status/3","type":["VerifiableCredential","StatusList2021Credential"],"issuer":"did:example:12345","issuanceDate":"2021-04-05T14:27:40Z","credentialSubject":{"id":"https://example.com/status/3#list","type":"StatusList2021","statusPurpose":"revocation","encodedList":"H4sIAAAAAAAAA-3BMQEAAADCoPVPbQwfoAAAAAAAAAAAAAAAAAAAAIC3AYbSVKsAQAAA"}}"#);
   add("credential", r#"{"nonce":"abc","method_scope":"VerificationMethod","method_id":"did:example:1#k"}"#);
   add("status_list", "H4sIAAAAAAAAA-3BMQEAAADCoPVPbQwfoAAAAAAAAAAAAAAAAAAAAIC3AYbSVKsAQAAA");
+  // well-formed encoded lists of EVERY size class, also shorter than anything StatusList2021::new hands out: an externally
+  // supplied list is as long as its author made it (0, 1, 2, 16 bytes, the 16 KiB minimum, one more)
+  for nbytes in [0usize, 1, 2, 16, 16 * 1024, 16 * 1024 + 1] {
+    use std::io::Write;
+    let mut raw = vec![0u8; nbytes];
+    if nbytes > 0 {
+      raw[0] = 0x81;
+      raw[nbytes - 1] |= 0x01;
+    }
+    let mut enc = flate2::write::GzEncoder::new(Vec::new(), flate2::Compression::default());
+    enc.write_all(&raw).unwrap();
+    let text = identity_core::convert::BaseEncoding::encode(&enc.finish().unwrap(), identity_core::convert::Base::Base64);
+    add("status_list", &text);
+    add(
+      "credential",
+      &format!(
+        r#"{{"@context":["https://www.w3.org/2018/credentials/v1","https://w3id.org/vc/status-list/2021/v1"],"id":"https://example.com/credentials/status/3","type":["VerifiableCredential","StatusList2021Credential"],"issuer":"did:example:12345","issuanceDate":"2021-04-05T14:27:40Z","credentialSubject":{{"id":"https://example.com/status/3#list","type":"StatusList2021","statusPurpose":"revocation","encodedList":"{text}"}}}}"#
+      ),
+    );
+  }
   // tokens
   let cred_jwt = crate::c02::sign_jwt(&claims, Some("did:example:issuer#key-1"), None, &w.c02.k1);
   add("jws_compact", cred_jwt.as_str());
